@@ -42,6 +42,7 @@ def generate(tier, seed):
                     continue
                 cases.append(("field", {"name": name, "dim": dim, "mean_u": float(rng.choice([0.3, 1.0, -2.0, 0.0])), "mode_no": int(rng.choice([64, 1000])),
                                         "npts": int(rng.choice([1, dim, dim + 1, 7])), "len_unit": float(rng.choice([1.0, 1.0, 1e-4, 1e4])),
+                                        "threads": [None, None, 2, 3, 5][int(rng.integers(0, 5))],
                                         "seed": int(rng.integers(1, 1 << 24)), "cseed": int(rng.integers(1 << 30)),
                                         "history": str(rng.choice(["none", "mean_u", "model", "mode_no"]))}))
     for dim in (2, 3):
@@ -107,9 +108,17 @@ def check_field(ctx, c):
     npts = int(c.get("npts", 7))  # incl. a single point and exactly `dim` points (square position arrays)
     unit = float(c.get("len_unit", 1.0))
     x = (rng.uniform(-6, 6, size=(dim, npts)) + 1e-3 * rng.random()) * unit
-    with warnings.catch_warnings():
-        warnings.simplefilter("ignore")
-        u = np.asarray(srf(x), dtype=float)
+    from gstools import config
+
+    config.NUM_THREADS = c.get("threads")  # the thread count is the user's setting; the field must not depend on it
+    try:
+        with warnings.catch_warnings():
+            warnings.simplefilter("ignore")
+            u = np.asarray(srf(x), dtype=float)
+            # the generator itself, called the way CondSRF and users of the low-level API call it
+            u_gen = np.asarray(srf.generator(np.asarray(srf.model.isometrize(x)), add_nugget=False), dtype=float)
+    finally:
+        config.NUM_THREADS = None
     gen = srf.generator
     mech = {"model": c["name"], "dim": dim, "history": hist}
     if u.shape != (dim, npts):
@@ -129,6 +138,10 @@ def check_field(ctx, c):
     if not err <= tol:
         ctx.fail(dict(mech, what="field!=mean*e1+mean*sqrt(var/N)*sum p(k)(Z1 cos+Z2 sin)"),
                  f"{c['name']} dim {dim} mean_u {mean_u} N {k.shape[1]}: max rel deviation {err:.3e} (tol {tol:.1e})")
+        return
+    if u_gen.shape != want.shape or not common.maxabs(u_gen - want) / scale <= tol:
+        ctx.fail(dict(mech, what="generator(pos, add_nugget=False)!=mean*e1+fluctuations"),
+                 f"{c['name']} dim {dim}: direct generator call differs from the formula by {common.maxabs(u_gen - want) / scale if u_gen.shape == want.shape else u_gen.shape} (threads {c.get('threads')})")
         return
     kp = np.abs(np.sum(k * proj, axis=0)) / np.maximum(np.linalg.norm(k, axis=0), 1e-300)
     if np.max(kp) > 1e-12:
